@@ -2,6 +2,7 @@
 from mirlib import *
 from proto import *
 import header_rules
+import cache_rules
 
 TECHNIQUE = "MIR must-pass-through and dominance order of the publication protocol (XML written, flushed, then header patched last), who-may-call tables for Header::write / physical_seek(0), constant placeholder header, reader acceptance dominated by XML parse"
 EXPLANATION = (
@@ -20,7 +21,7 @@ def run(ctx):
     ctx.rule("R1", "finalize: write_all(xml) -> physical_size (flush) -> physical_seek(0) -> Header::write -> flush on every Ok path, in this order; nothing else touches the device after the header write")
     ctx.rule("R2", "E57Writer::new writes Header::default() first; its phys_length / phys_xml_offset / xml_length are constant 0")
     ctx.rule("R3", "Header::write is called only from new and finalize_customized_xml; physical_seek(0) only from the latter; all other seek targets come from physical_position")
-    ctx.rule("R4", "E57Reader::new returns Ok only after Header::read, PagedReader::new, extract_xml(xml_length), from_utf8, Document::parse and root_from_document succeeded")
+    ctx.rule("R4", "E57Reader::new returns Ok only after Header::read, PagedReader::new, extract_xml(xml_length), from_utf8, Document::parse and root_from_document succeeded; pages that fail their checksum (torn writes) are never served from the cache (C07-R2..R4)")
     for cfg in (["lib"] if ctx.tier == "quick" else ["lib", "lib_crc32c"]):
         prog, info = load_program(cfg, "e57")
         ctx.configs[cfg] = info
@@ -29,4 +30,8 @@ def run(ctx):
         header_rules.placeholder(ctx, prog, "R2")
         header_rules.who_may_seek(ctx, prog, "R3")
         header_rules.reader_acceptance(ctx, prog, "R4")
+        # a partially written (torn) page fails its checksum: the page cache must never serve its bytes afterwards
+        cache_rules.invalidate_on_clobber(ctx, prog, cache_rules.PR, rule="R4")
+        cache_rules.validate_before_publish(ctx, prog, cache_rules.PR, "table" if cfg == "lib" else "crate", rule="R4")
+        cache_rules.serve_only_verified(ctx, prog, cache_rules.PR, rule="R4")
     ctx.cfg = None
